@@ -385,6 +385,8 @@ func pair(kind string, fine bool) func() {
 }
 
 func init() {
+	reg.Register(&reg.Scenario{Property: "C16", Name: "backlog-behind-busy-object", Body: fx.Backlog(12), Quick: 1, Thorough: 2,
+		Doc: "an object busy in a gated call; one connection pipelines terminate() + 12 calls (more than its mailbox holds), a second connection one more; then the gate opens"})
 	reg.Register(&reg.Scenario{Property: "C16", Name: "histories-3", Body: histories(3), Quick: 0, Thorough: 1,
 		Doc: "all sequences of <=3 operations {add, remove(i), terminate(i), call(i), subscribe(i)} over two objects, each step to quiescence, against the reference model"})
 	reg.Register(&reg.Scenario{Property: "C16", Name: "histories-4", Body: histories(4), Quick: -1, Thorough: 0,
